@@ -8,6 +8,7 @@ import RdVerif.Model.Fractions
 import RdVerif.Model.Units
 import RdVerif.Model.DriverInv
 import RdVerif.Model.Queries
+import RdVerif.Model.Diagram
 import RdVerif.Gen.Icrp107.Data
 
 namespace RdVerif.Driver
@@ -143,6 +144,14 @@ def handle (st : State) (req : List String) : State × String :=
     | some ds, some i =>
       (st, "ok " ++ " ".intercalate ((get2 ds.links i []).map (fun l =>
         s!"{encCodes l.name}:{encRat l.bf}:{encCodes (l.mode.toList.map Char.toNat)}")))
+    | _, _ => (st, "bad-request")
+  | ["diagram", dsn, root] =>
+    match dsByName dsn, root.toNat? with
+    | some ds, some root =>
+      let g := buildDigraph ds root
+      (st, "ok " ++ " ".intercalate (g.nodes.map (fun n => s!"{encCodes n.name}:{n.gen}:{n.xpos}")) ++ " | " ++
+        " ".intercalate (g.edges.map (fun e =>
+          s!"{encCodes e.src}:{encCodes e.dst}:{encCodes (e.mode.toList.map Char.toNat)}:{encRat e.bf}")))
     | _, _ => (st, "bad-request")
   | "set_names" :: ns =>
     match ns.mapM decCodes with
